@@ -442,7 +442,7 @@ trivial = empty list; distinct = distinct kind strings; oracle = 60-line referen
     });
 
     // ---- random lists ------------------------------------------------------------------------------------
-    let total: u64 = ctx.tier.pick(1_500, 150_000);
+    let total: u64 = ctx.tier.pick(3_000, 150_000);
     par_cases(ctx, total, |i, obs| {
         let mut rng = Rng::derive(seed, 14, 1 + i);
         let len = match rng.below(6) {
